@@ -391,10 +391,14 @@ func Applicable(target string, c Call) bool {
 
 // ReplayEdges reads TLC edges, replays the shard's share against fresh sessions and writes one
 // EdgeResult line for every edge that did not conform.
+// MaxBadTraces bounds the non-conforming steps written out with their trace.
+const MaxBadTraces = 3000
+
 func ReplayEdges(f *Factory, in io.ReadSeeker, out io.Writer, shard, nshard int, names []string, workers int) (ReplayStats, error) {
 	var (
-		st ReplayStats
-		mu sync.Mutex
+		st      ReplayStats
+		mu      sync.Mutex
+		written int
 	)
 
 	keyOf := func(e *Edge) string {
@@ -525,7 +529,13 @@ func ReplayEdges(f *Factory, in io.ReadSeeker, out io.Writer, shard, nshard int,
 			st.Built++
 		}
 
+		// a change that breaks nearly every step would produce gigabytes of traces: the first MaxBadTraces
+		// non-conforming steps are kept for judgement, the others are only counted
 		if r.Status == "mismatch" || (r.Status == "unreach" && len(r.Trace) > 0) {
+			written++
+		}
+
+		if (r.Status == "mismatch" || (r.Status == "unreach" && len(r.Trace) > 0)) && written <= MaxBadTraces {
 			if err := enc.Encode(r); err != nil && firstErr == nil {
 				firstErr = err
 			}
